@@ -225,7 +225,7 @@ def run(res, om, parts, boundary, quoted, M, framing):
         c['quoted_boundary'] += 1
     if nontriv or any(ch in n for n in names for ch in ';= \\\'ü'):
         res['nontrivial'] += 1
-    res['outcomes'].add('ok' if v is None else v[0])
+    res['outcomes'].add((f'{len(parts)} parts ({sum(1 for p in parts if p[0] == "t")} text, repeated names: {len(set(names)) < len(names)}) {seen.get("kind") if seen else None}: ') + ('ok' if v is None else v[0]))
     if v is not None:
         sig = classify(parts, v)
         if quoted and v[0] in ('status', 'forms', 'files', 'POST') and not seen.get('post'):
